@@ -12,6 +12,20 @@ PROPS["C16"] = dict(
          "prefix (hostile constant / body length -2..+2 / 2^63+-24, 2^64-24.. / 2^(7k)+-2 / small / random 64-bit; minimal or "
          "over-long; 1..12 arbitrary or all-80/all-ff groups, terminated or not) + 0..20 body bytes; rapid mutation: 1..3 "
          "valid items with one truncation / bit flip / extreme byte / extended prefix / deletion / append / prefix +-3. "
+         "Large records (compact case form: hex head + n bytes of a seeded fill stream): enumerated - every body length within 9 "
+         "of 2^k, k = 8..18 (thorough ..22), complete, cut short by one byte, followed by 3 more bytes, with an over-long prefix "
+         "and with a prefix that promises one byte more; rapid grammar - one case in twelve has a body of 2^k-9..2^k+9, k = "
+         "9..18, or any length 256..2^18, behind its exact length (minimal or over-long) or a grammar "
+         "prefix, complete, cut short by 1..20 bytes or followed by 1..20 more (classes input_ge_64KiB, "
+         "complete_record_body_gt_64KiB ...). "
+         "Concurrent decoders (third case type, unit concurrent, -race in the thorough tier): 2..48 inputs - grammar prefix or "
+         "exact length in front of 0..40 (an eighth: up to 5000, at most two per case: up to 128 KiB) fill bytes, grammar and "
+         "mutated inputs - are decoded by every function on 2..8 goroutines AT THE SAME TIME, the inputs partitioned among the "
+         "goroutines or (a quarter) all of them read from the same memory by every goroutine, an eighth with GOMAXPROCS(1); "
+         "oracle per call as above, plus: every concurrent call returns the n, the success/failure and the bytes that the same "
+         "call returns when made alone AFTER the concurrent phase (a reference computed first would warm up any state the "
+         "functions might share); a test process that dies inside a decoder (unrecoverable runtime abort) is reported by the "
+         "driver as signature process-crash of this property; non-trivial = at least two goroutines rejected inputs. "
          "Buffer-reuse histories (second case type): 2..5 (a tenth of the cases 6..16) inputs copied one after the other into the SAME memory (one arena per "
          "case and presentation) and decoded from there by every function, at offset 0 and at the offsets where the following "
          "items start; a round is 1..3 length-prefixed items with the previous round's lengths and new content (offsets "
@@ -23,6 +37,7 @@ PROPS["C16"] = dict(
          "bytes that follow it or >= 2^31; a history is non-trivial when a later round changed the memory; "
          "distinct = FNV hash of the input bytes / of the history's JSON form",
     assumptions=["'sub-range of the input' is checked against in[0:len], not against the capacity",
+                 "the Unmarshal functions are plain functions of their argument (no receiver, no documented state): 'for every byte string each Unmarshal function returns ...' is read as holding for a call whatever other Unmarshal calls are in progress on other goroutines, as long as nobody writes the input",
                  "the native fuzzing stage (thorough) uses a test binary built with -fuzz (coverage instrumentation) and is seeded with the hostile inputs"],
     units=[
         dict(name="exhaustive", run="^TestC16Exhaustive$", shards=(4, 16), timeout=(200, 600)),
@@ -30,6 +45,8 @@ PROPS["C16"] = dict(
         dict(name="mutate", run="^TestC16RapidMutate$", checks=(30000, 400000), shards=(2, 16), timeout=(200, 600)),
         dict(name="history_exhaustive", run="^TestC16HistoryExhaustive$", shards=(1, 4), timeout=(200, 600)),
         dict(name="history", run="^TestC16RapidHistory$", checks=(15000, 200000), shards=(2, 16), timeout=(200, 600)),
+        dict(name="concurrent", run="^TestC16RapidConcurrent$", checks=(4000, 20000), shards=(2, 8), timeout=(200, 900),
+             race=(False, True)),
         dict(name="fuzz", run="^FuzzC16$", fuzz=(None, "^FuzzC16$"), enabled=(False, True), serial=True, shards=1, timeout=(200, 400),
              args=([], ["-test.fuzz=^FuzzC16$", "-test.fuzztime=120s", "-test.fuzzcachedir={rundir}/fuzzcache", "-test.parallel=16"]),
              env={"VERIF_STATS_PERPID": "1"}),
@@ -40,6 +57,7 @@ LEVEL_TEXT["C16"] = (
     "Fuzzing of the decoders' whole input space with a totality oracle (no panic, consumed length and returned range inside "
     "the input, zero consumed on error): every byte string up to length 2, every string up to length 10 over the "
     "extreme group bytes (length prefixes made of all-ones / all-zero groups, including 2^63-1 and 2^64-1), a "
-    "grammar of hostile length prefixes with short bodies, mutated valid encodings and, in the thorough tier, native go "
-    "fuzzing from the hostile seeds. No counterexample among the inputs counted in the evidence; not a proof for all byte strings."
+    "grammar of hostile length prefixes with short bodies and with records of up to 256 KiB (enumerated: thorough up to "
+    "4 MiB) around every power of two, mutated valid encodings, the same inputs decoded by up to 8 goroutines at once and, in the thorough tier, "
+    "native go fuzzing from the hostile seeds. No counterexample among the inputs counted in the evidence; not a proof for all byte strings."
 )
